@@ -237,3 +237,114 @@ func VerifC03_TopicPause() {
 	verifrt.Reach("paused-before-start", pauseFirst)
 	verifrt.Reach("paused-after-start", !pauseFirst)
 }
+
+// The REAL delivery pump goroutine through a bounded history of consumer events (RDY n, CLS,
+// channel pause / unpause, publish, FIN), one event at a time with everything at rest in between
+// (canonical schedule): after every event the number of messages the pump sent is EXACTLY what the
+// statement allows - min(queued, RDY - outstanding) when the channel is not paused and the
+// consumer has not sent CLS, none otherwise. In particular a RDY decrease, CLS or pause that
+// arrives while the pump is parked in its select takes effect before the next message, and a
+// raise / unpause resumes delivery. Runs without topology awareness, and with the topology
+// experiment for a zone-local and a region-local consumer (messages are then handed over on the
+// unbuffered zone / region channels).
+func VerifC03_PumpHistory() {
+	o := verifOpts()
+	o.MemQueueSize = 4
+	topo := verifrt.Choice("topology", 3) // 0 off, 1 zone-local consumer, 2 region-local consumer
+	if topo > 0 {
+		o.Experiments = []string{string(TopologyAwareConsumption)}
+		o.TopologyRegion, o.TopologyZone = "r1", "z1"
+	}
+	verifrt.Preemptions(0)
+	var st *verifChan
+	var cl *clientV2
+	verifrt.Atomic(func() {
+		verifConcreteIDs, verifIDSeq = true, 0
+		st = verifNewChan(o, "ch")
+		cl = st.addClient(7)
+		cl.State = stateInit
+	})
+	if verifrt.Symbolic() {
+		verifTickC = make(chan time.Time)
+		verifrt.Stub("time.NewTicker", verifNewTickerStub)
+		verifrt.Stub("(*time.Ticker).Stop", verifTickerStopStub)
+	}
+	p := &protocolV2{nsqd: st.n}
+	started := make(chan bool)
+	go p.messagePump(cl, started)
+	<-started
+	ev := identifyEvent{OutputBufferTimeout: 250 * time.Millisecond, HeartbeatInterval: 30 * time.Second, MsgTimeout: time.Minute}
+	switch topo {
+	case 1:
+		ev.TopologyRegion, ev.TopologyZone = "r1", "z1"
+	case 2:
+		ev.TopologyRegion, ev.TopologyZone = "r1", "z9"
+	}
+	cl.IdentifyEventChan <- ev
+	verifrt.Rest()
+	cl.Channel = st.c
+	cl.State = stateSubscribed
+	cl.SubEventChan <- st.c
+	verifrt.Rest()
+	var held []*Message
+	closing := false
+	steps := verifrt.Bound("pump-history-steps", 3, 4)
+	seq := 0
+	for s := 0; s < steps; s++ {
+		sentBefore := cl.MessageCount
+		queuedBefore := st.c.Depth()
+		published := int64(0)
+		switch verifrt.Choice("event", 6) {
+		case 0: // RDY n
+			nrdy := []string{"0", "1", "2"}[verifrt.Choice("rdy", 3)]
+			p.RDY(cl, [][]byte{[]byte("RDY"), []byte(nrdy)})
+		case 1: // publish one message to the channel
+			seq++
+			m := verifMsg("p", 1)
+			// with topology awareness put() hands the message straight to a pump that selects on the
+			// zone / region channel; otherwise it is queued
+			st.c.PutMessage(m)
+			held = append(held, m)
+			published = 1
+		case 2: // FIN the oldest message the consumer holds
+			for _, m := range held {
+				if x, ok := st.c.inFlightMessages[m.ID]; ok && x.clientID == cl.ID {
+					id := m.ID
+					p.FIN(cl, [][]byte{[]byte("FIN"), id[:]})
+					break
+				}
+			}
+		case 3:
+			if !closing {
+				p.CLS(cl, [][]byte{[]byte("CLS")})
+				closing = true
+			}
+		case 4:
+			st.c.Pause()
+		case 5:
+			st.c.UnPause()
+		}
+		// state after the event, before the pump reacts (nothing else runs until Rest)
+		rdy, out := cl.ReadyCount, cl.InFlightCount
+		paused := st.c.IsPaused()
+		sentDuringEvent := int64(cl.MessageCount - sentBefore) // hand-over inside PutMessage (topology channels)
+		verifrt.Rest()
+		sent := int64(cl.MessageCount - sentBefore)
+		allowed := int64(0)
+		if !paused && !closing && rdy > 0 && rdy > out-sentDuringEvent {
+			allowed = rdy - (out - sentDuringEvent)
+		}
+		avail := queuedBefore + published
+		want := allowed
+		if avail < want {
+			want = avail
+		}
+		verifrt.Assert(sent <= allowed, "never-more-than-rdy-allows-and-nothing-when-rdy0-cls-or-paused")
+		verifrt.Assert(sent == want, "delivers-exactly-what-flow-control-allows")
+		verifrt.Assert(cl.InFlightCount == int64(len(st.c.inFlightMessages)), "outstanding-count-equals-messages-held")
+	}
+	verifrt.Reach("history-with-delivery", cl.MessageCount > 0)
+	verifrt.Reach("history-with-cls", closing)
+	close(cl.ExitChan)
+	verifrt.Rest()
+}
